@@ -1,6 +1,7 @@
 package rules
 
 import (
+	"sort"
 	"fmt"
 	"go/ast"
 	"go/token"
@@ -538,6 +539,7 @@ func c04R3(p *core.Program, r *core.Report) {
 	}
 	sites := map[string]*site{}
 	var order []string
+	byFunc := map[string]*core.Func{}
 	for _, cs := range allCalls(p) {
 		rel := core.RelPkg(cs.In.Pkg.PkgPath)
 		if !strings.HasPrefix(rel, "devpkg/") || cs.In.Body == nil {
@@ -557,11 +559,28 @@ func c04R3(p *core.Program, r *core.Report) {
 			order = append(order, rel)
 		}
 		st.funcs[cs.In.Root().QName()] = true
+		byFunc[cs.In.Root().QName()] = cs.In.Root()
 	}
 	for _, rel := range order {
 		st := sites[rel]
 		construct := "method-set query on a type that may belong to the processed package (in " + itoa(int64(len(st.funcs))) + " function(s))"
-		r.Bad(rule, st.pkg, construct, st.pos, "a generator decision depends on the methods a type has, and the generators add methods to the package they process: the next run sees the previous run's output in the method set and can decide differently (the output is not a fixed point of a second run)")
+		// the one safe idiom: what the scan finds is overwritten before use for types of the processed package
+		safe, hows := true, []string{}
+		names := []string{}
+		for name := range st.funcs {
+			names = append(names, name)
+		}
+		sort.Strings(names)
+		for _, name := range names {
+			good, how := ownOutputOverride(p, byFunc[name])
+			hows = append(hows, how)
+			safe = safe && good
+		}
+		if safe {
+			r.OK(rule, st.pkg, construct, st.pos, strings.Join(hows, "; "))
+			continue
+		}
+		r.Bad(rule, st.pkg, construct, st.pos, "a generator decision depends on the methods a type has, and the generators add methods to the package they process: the next run sees the previous run's output in the method set and can decide differently (the output is not a fixed point of a second run) ["+strings.Join(hows, "; ")+"]")
 	}
 }
 
